@@ -430,8 +430,15 @@ pub fn sym_session(lines: &[String], emit: &mut dyn FnMut(String)) {
                 for p in &truth { if let Some(t) = &facts[p].symtab { want.extend(last_per_name(t).into_iter().filter(|s| denotes(&alts, &s.name))); } }
                 let want_t = tokens(&want);
                 if got_t != want_t {
-                    let missing: Vec<&String> = want_t.iter().filter(|x| !got_t.contains(x)).collect();
-                    let extra: Vec<&String> = got_t.iter().filter(|x| !want_t.contains(x)).collect();
+                    // multiset differences (the same name:kind:value may be listed once per object)
+                    let diff = |a: &[String], b: &[String]| -> Vec<String> {
+                        let mut left: BTreeMap<&String, i64> = BTreeMap::new();
+                        for x in b { *left.entry(x).or_insert(0) += 1; }
+                        a.iter().filter(|x| { let c = left.entry(*x).or_insert(0); *c -= 1; *c < 0 }).cloned().collect()
+                    };
+                    let (missing_v, extra_v) = (diff(&want_t, &got_t), diff(&got_t, &want_t));
+                    let missing: Vec<&String> = missing_v.iter().collect();
+                    let extra: Vec<&String> = extra_v.iter().collect();
                     let show = |v: &[&String]| v.iter().take(6).map(|t| { let mut it = t.split(':'); format!("{} (kind {}, value {})", dec_str(it.next().unwrap()), it.next().unwrap(), it.next().unwrap()) }).collect::<Vec<_>>();
                     // objects none of whose matching symbols were listed
                     let skipped: Vec<String> = truth.iter().filter(|p| facts[*p].symtab.as_ref().is_some_and(|t| {
